@@ -157,7 +157,7 @@ def run_history(ptn, seed, quick, want_graphs=True):
         """run fn() (the real call) and append the C02 / C19 records"""
         before = {k: digest(c, o) for k, (c, o) in pool.items()}
         bq = {k: (list(np.asarray(o.qD[0]).reshape(-1)[:1]), list(np.asarray(o.qD[-1]).reshape(-1)[:1])) for k, (c, o) in pool.items() if c != 'graph'}
-        bz = {k: (not np.any(o.as_vector())) for k, (c, o) in pool.items() if c == 'mps'}
+        bz = {k: (not np.any(o.as_vector() if c == 'mps' else o.as_matrix())) for k, (c, o) in pool.items() if c != 'graph'}
         try:
             with warnings.catch_warnings():
                 warnings.simplefilter('ignore')
